@@ -193,3 +193,17 @@ Proof.
     rewrite skipn_length in H. destruct H as [H1 H2]. split; [lia|].
     intros d Hd. specialize (H2 d Hd). lia.
 Qed.
+
+(** * lower_bound / upper_bound: the returned position is inside [0, length] *)
+Lemma bsearch_loop_le fuel p vals : forall first count,
+  first + count <= length vals -> bsearch_loop fuel p vals first count <= length vals.
+Proof.
+  induction fuel as [|k IH]; intros first count H; cbn [bsearch_loop]; [lia|].
+  destruct (Nat.eqb_spec count 0) as [E|N]; [lia|].
+  assert (Hs : count / 2 < count) by (apply Nat.div_lt; lia).
+  set (step := count / 2) in *.
+  destruct (p (nth (first + step) vals 0%Z)); apply IH; lia.
+Qed.
+
+Lemma bsearch_le p vals : bsearch p vals <= length vals.
+Proof. unfold bsearch. apply bsearch_loop_le. lia. Qed.
